@@ -156,6 +156,11 @@ def gen_block(rng):
         rng.shuffle(terms)
         case['endo'].append([v, join_terms(rng, terms)])
     case['lags'] = lags
+    nonconst = [v for v in endo if v not in consts]
+    if kind == 'contract' and nonconst and rng.random() < 0.25:
+        # a steep derived-only equation: nothing depends on it, so equation reduction sets it aside as decoration
+        case['reduction'] = True
+        case['endo'].append(['DSTEEP', '%s*%s' % (rng.choice(['1000.', '250.', '4000.']), rng.choice(nonconst))])
     for g in exo:
         r = rng.random()
         L = Tn + 1 + rng.choice([0, 0, 1, 5])
@@ -885,4 +890,4 @@ def replay(path):
     for f in fails:
         print('FAILS:', f['key'], f['what'][:400])
     print('replay: %s' % ('property violated' if fails else 'property holds on this input'))
-    return 1 if fails else 0
+    return common.replay_status(PID, fails)
